@@ -114,7 +114,9 @@ def run_threads(workloads, schedule, fine=False):
     for t in ths:
         t.start()
     for t in ths:
-        t.join(30)
+        t.join(max(60.0, 6 * Controller.timeout))
+    if any(t.is_alive() for t in ths):
+        ctl.stuck = True            # not an observation of the library: the caller retries / reports a machinery failure
     return results, ctl
 
 
